@@ -152,3 +152,50 @@ pub fn encode(op: u8, rng: &mut Rng, avoid_rom_regs: bool) -> Vec<u8> {
         }
     }
 }
+
+/// One "safe" non-terminating instruction: never modifies H, L or SP, never writes through BC/DE, and
+/// writes memory only at (HL) (callers keep HL in work RAM), at a drawn work-RAM address or in high RAM.
+/// Reads may target the switchable ROM window (reveals the mapped bank).
+pub fn safe_instruction(rng: &mut Rng) -> Vec<u8> {
+    const DEST: [u8; 5] = [0, 1, 2, 3, 7]; // B C D E A
+    match rng.below(16) {
+        0 => vec![[0x06u8, 0x0e, 0x16, 0x1e, 0x3e][rng.below(5) as usize], rng.byte_b()],
+        1 => vec![rng.pick(&[0x04u8, 0x05, 0x0c, 0x0d, 0x14, 0x15, 0x1c, 0x1d, 0x3c, 0x3d])],
+        2 | 3 => vec![0x80 + rng.below(0x40) as u8],
+        4 => {
+            let d = rng.pick(&DEST);
+            let s = rng.below(8) as u8;
+            vec![0x40 | (d << 3) | s]
+        }
+        5 => {
+            // LD (HL),r  (r != (HL))
+            let s = rng.pick(&[0u8, 1, 2, 3, 4, 5, 7]);
+            vec![0x70 | s]
+        }
+        6 | 7 => {
+            let t = rng.pick(&[0u8, 1, 2, 3, 7, 6]);
+            vec![0xcb, (rng.below(32) as u8) << 3 | t]
+        }
+        8 => vec![rng.pick(&[0x34u8, 0x35])],
+        9 => vec![0x36, rng.byte_b()],
+        10 => {
+            let a = 0xc000 + rng.below(0x1f00) as u16;
+            vec![0xea, a as u8, (a >> 8) as u8]
+        }
+        11 => {
+            let a = if rng.chance(1, 2) { 0x4000 + rng.below(0x4000) as u16 } else { rng.pick(&[0xc000u16, 0xc100, 0x0000, 0x3fff, 0x4000, 0x7fff, 0xff80, 0xa000]) };
+            vec![0xfa, a as u8, (a >> 8) as u8]
+        }
+        12 => vec![rng.pick(&[0xe0u8, 0xf0]), 0x80 + rng.below(0x7f) as u8],
+        13 => vec![rng.pick(&[0x07u8, 0x0f, 0x17, 0x1f, 0x27, 0x2f, 0x37, 0x3f])],
+        14 => vec![rng.pick(&[0xc6u8, 0xce, 0xd6, 0xde, 0xe6, 0xee, 0xf6, 0xfe]), rng.byte_b()],
+        _ => match rng.below(4) {
+            0 => {
+                let w = 0x8000 | rng.word();
+                vec![rng.pick(&[0x01u8, 0x11]), w as u8, (w >> 8) as u8]
+            }
+            1 => vec![rng.pick(&[0x03u8, 0x13, 0x0b, 0x1b])],
+            _ => vec![rng.pick(&[0x0au8, 0x1a])],
+        },
+    }
+}
